@@ -341,24 +341,42 @@ def r3_lattice(repo: Repo, rep):
         if fi is None:
             raise AnalysisError(f"{cname}.bounding_box vanished")
         rep.saw(fi)
-        for p in paths(fi.node):
-            if p.ret is RAISE or p.ret is None:
+        # partial evaluation for 1, 2 and 3 axes with symbolic operand boxes [A.lo0, A.hi0, ...]
+        from ..absdom.listeval import Evaluator, NotEval, Opaque, Term, Vec1, UNKNOWN, norm
+        pa_ok = True
+        for c in ast.walk(fi.node):
+            if isinstance(c, ast.Call) and isinstance(c.func, ast.Attribute) and c.func.attr == "bounding_box" and dump(c.func.value) in ("self.domain_a", "self.domain_b"):
+                pa = kwarg(c, "params", 0)
+                pa_ok = pa_ok and pa is not None and dump(pa) == fi.params[1]
+        rep.check(R, pa_ok, fi.site(), fi.fq, "operand boxes computed for the caller's params", "another params argument", "operand params")
+        for D in (1, 2, 3):
+            def resolve(e, ev, f, D=D):
+                t = dump(e).replace(" ", "")
+                if t in ("self.space.dim", "self.dim", "self.domain_a.dim", "self.domain_b.dim", "self.domain_a.space.dim", "self.domain_b.space.dim"):
+                    return D
+                if isinstance(e, ast.Name) and e.id in fi.params:
+                    return Opaque(e.id)
+                return None
+
+            def on_call(e, name, args, kws, ev, f, D=D):
+                if isinstance(e.func, ast.Attribute) and e.func.attr == "bounding_box" and dump(e.func.value) in ("self.domain_a", "self.domain_b"):
+                    w = "A" if dump(e.func.value).endswith("_a") else "B"
+                    return Vec1([RF.atom(f"{w}.{s}{k}") for k in range(D) for s in ("lo", "hi")])
+                return None
+            ev = Evaluator(resolve, on_call)
+            fr = ev.run(fi.node.body, {})
+            got = fr.ret
+            if got is None or got is UNKNOWN or not isinstance(got, list):
+                rep.undecided(R, fi.site(), fi.fq, f"box evaluable for {D} axes", f"result {got!r}"[:100])
                 continue
-            elts = _box_elements(p.ret)
-            iv = [k for k, it in p.loopvars.items() if "range(" in dump(it)]
-            if elts is None or len(elts) != 2 or not iv:
-                rep.undecided(R, fi.site(p.ret_node), fi.fq, "[lower_i, upper_i] appended per axis", dump(p.ret)[:80])
-                continue
-            rng = dump(p.loopvars[iv[0]]).replace(" ", "")
-            rep.check(R, rng in ("range(self.space.dim)", "range(self.dim)"), fi.site(), fi.fq, "one (lower, upper) pair per axis of the space", rng, rng)
-            lo, hi = _lattice_entry(elts[0], iv[0]), _lattice_entry(elts[1], iv[0])
-            rep.check(R, lo == lo_want, fi.site(p.ret_node), fi.fq, f"lower_i = {lo_want[0]}{sorted(lo_want[1])}", f"{lo}", f"lower {lo}")
-            rep.check(R, hi == hi_want, fi.site(p.ret_node), fi.fq, f"upper_i = {hi_want[0]}{sorted(hi_want[1])}", f"{hi}", f"upper {hi}")
-            for c in ast.walk(p.ret):
-                if isinstance(c, ast.Call) and isinstance(c.func, ast.Attribute) and c.func.attr == "bounding_box":
-                    pa = kwarg(c, "params", 0)
-                    rep.check(R, pa is not None and dump(pa) == "params", fi.site(p.ret_node), fi.fq, "operand boxes computed for the caller's params", dump(c)[:80], dump(c)[:80])
-                    break
+            want = []
+            for k in range(D):
+                for kind, side in ((lo_want[0], "lo"), (hi_want[0], "hi")):
+                    t = Term(kind, [])
+                    t.args = frozenset({f"A.{side}{k}", f"B.{side}{k}"})
+                    want.append(t)
+            rep.check(R, norm(got) == norm(want), fi.site(), fi.fq, f"{D} axes: box = [{lo_want[0]}(A.lo_i, B.lo_i), {hi_want[0]}(A.hi_i, B.hi_i)] per axis i",
+                      f"{norm(got)}", f"D={D}: {norm(got)}")
     ci = repo.cls(f"{ops}.cut.CutDomain")
     fi = ci.methods.get("bounding_box")
     rep.saw(fi)
